@@ -244,6 +244,9 @@ def tableau_invariant(tab):
         want[i, n + i] = want[n + i, i] = 1
     if not np.array_equal(sp, want):
         return "not symplectic / destabilizers not paired"
+    ip = getattr(tab, "iphase", None)
+    if ip is not None and np.any(np.asarray(ip)[n:] % 2):
+        return "stabilizer generator carries an imaginary phase"
     return None
 
 
